@@ -12,9 +12,13 @@ import (
 	"encoding/json"
 	"fmt"
 	"io/ioutil"
+	"net"
 	"net/http"
+	"net/http/httputil"
+	"net/url"
 	"os"
 	"sort"
+	"sync/atomic"
 	"testing"
 	"time"
 
@@ -43,6 +47,7 @@ type act struct {
 	Rmax int    `json:"rmax"`
 	Q    string `json:"q"`
 	From string `json:"from"`
+	P    string `json:"p"`
 }
 
 type script struct {
@@ -77,7 +82,51 @@ type node struct {
 	name string
 	r    *rig.Rig
 	mock *test.IpfsMock
+	gw   *outageProxy
 }
+
+// outageProxy sits between the connector and the mock daemon: while down every API request is
+// answered with an IPFS-style 500 error, otherwise it is relayed unchanged.
+type outageProxy struct {
+	down int32
+	ln   net.Listener
+	srv  *http.Server
+}
+
+func newOutageProxy(target string) (*outageProxy, error) {
+	u, err := url.Parse(target)
+	if err != nil {
+		return nil, err
+	}
+	ln, err := net.Listen("tcp4", "127.0.0.1:0")
+	if err != nil {
+		return nil, err
+	}
+	rp := httputil.NewSingleHostReverseProxy(u)
+	rp.FlushInterval = -1
+	op := &outageProxy{ln: ln}
+	op.srv = &http.Server{Handler: http.HandlerFunc(func(w http.ResponseWriter, r *http.Request) {
+		if atomic.LoadInt32(&op.down) == 1 {
+			w.Header().Set("Content-Type", "application/json")
+			w.WriteHeader(http.StatusInternalServerError)
+			w.Write([]byte(`{"Message":"daemon is down (verif outage)","Code":0,"Type":"error"}`))
+			return
+		}
+		rp.ServeHTTP(w, r)
+	})}
+	go op.srv.Serve(ln)
+	return op, nil
+}
+
+func (op *outageProxy) port() int { return op.ln.Addr().(*net.TCPAddr).Port }
+func (op *outageProxy) set(down bool) {
+	v := int32(0)
+	if down {
+		v = 1
+	}
+	atomic.StoreInt32(&op.down, v)
+}
+func (op *outageProxy) close() { op.srv.Close() }
 
 func ipfsPins(m *test.IpfsMock) (map[string]string, error) {
 	resp, err := http.Post(fmt.Sprintf("http://%s:%d/api/v0/pin/ls", m.Addr, m.Port), "", nil)
@@ -115,7 +164,11 @@ func runScript(t *testing.T, sc *script, seed int64) (*obs, error) {
 			return nil, err
 		}
 		mock := test.NewIpfsMock(t)
-		nodeMAddr, _ := ma.NewMultiaddr(fmt.Sprintf("/ip4/%s/tcp/%d", mock.Addr, mock.Port))
+		gw, err := newOutageProxy(fmt.Sprintf("http://%s:%d", mock.Addr, mock.Port))
+		if err != nil {
+			return nil, err
+		}
+		nodeMAddr, _ := ma.NewMultiaddr(fmt.Sprintf("/ip4/127.0.0.1/tcp/%d", gw.port()))
 		ccfg := &ipfshttp.Config{}
 		ccfg.Default()
 		ccfg.NodeAddr = nodeMAddr
@@ -131,13 +184,14 @@ func runScript(t *testing.T, sc *script, seed int64) (*obs, error) {
 			return nil, err
 		}
 		names.SetPeer(pn, r.ID)
-		n := &node{name: pn, r: r, mock: mock}
+		n := &node{name: pn, r: r, mock: mock, gw: gw}
 		nodes[pn] = n
 		order = append(order, n)
 	}
 	defer func() {
 		for _, n := range order {
 			n.r.Close()
+			n.gw.close()
 			n.mock.Close()
 		}
 	}()
@@ -214,6 +268,42 @@ func runScript(t *testing.T, sc *script, seed int64) (*obs, error) {
 			}
 		}
 	}
+	// wait until nothing changes any more (no operation in any live tracker, daemons stable)
+	waitSettled := func() (bool, error) {
+		deadline := time.Now().Add(20 * time.Second)
+		var last string
+		stableSince := time.Now()
+		for time.Now().Before(deadline) {
+			snap := ""
+			busy := false
+			for _, n := range order {
+				if !up[n.name] {
+					continue
+				}
+				pins, err := ipfsPins(n.mock)
+				if err != nil {
+					return false, err
+				}
+				b, _ := json.Marshal(pins)
+				snap += n.name + string(b)
+				if len(queues[n.name]) > 0 {
+					busy = true
+				}
+				for _, pi := range n.r.Cluster.StatusAllLocal(ctx, api.TrackerStatusQueued|api.TrackerStatusPinning|api.TrackerStatusUnpinning) {
+					_ = pi
+					busy = true
+				}
+			}
+			if snap != last || busy {
+				last = snap
+				stableSince = time.Now()
+			} else if time.Since(stableSince) > 400*time.Millisecond {
+				return true, nil
+			}
+			time.Sleep(20 * time.Millisecond)
+		}
+		return false, nil
+	}
 	o := &obs{Script: sc.ID, Ps: map[string]pinView{}, Ipfs: map[string]map[string]string{}, ExpUnpins: map[string]int{}}
 	var lastExpiry time.Time
 	stateSyncRound := func() {
@@ -272,6 +362,19 @@ func runScript(t *testing.T, sc *script, seed int64) (*obs, error) {
 		case "StateSyncAll":
 			stateSyncRound()
 			o.Results = append(o.Results, "StateSyncAll")
+		case "IpfsDown":
+			nodes[a.P].gw.set(true)
+			o.Results = append(o.Results, "IpfsDown("+a.P+")")
+		case "IpfsHeal":
+			nodes[a.P].gw.set(false)
+			o.Results = append(o.Results, "IpfsHeal("+a.P+")")
+		case "RecoverAll":
+			// the model recovers a peer on which nothing is in flight
+			if _, err := waitSettled(); err != nil {
+				return nil, err
+			}
+			_, err := nodes[a.P].r.Cluster.RecoverAllLocal(ctx)
+			o.Results = append(o.Results, fmt.Sprintf("RecoverAll(%s)=%v", a.P, err == nil))
 		case "PeerFail":
 			up[a.Q] = false
 			setMetrics()
@@ -288,37 +391,28 @@ func runScript(t *testing.T, sc *script, seed int64) (*obs, error) {
 	}
 	// every run ends with a StateSync round after the last expiry (the periodic state sync)
 	stateSyncRound()
-	// wait until nothing changes any more (no operation in any live tracker, daemons stable)
-	deadline := time.Now().Add(20 * time.Second)
-	var last string
-	stableSince := time.Now()
-	for time.Now().Before(deadline) {
-		snap := ""
-		busy := false
-		for _, n := range order {
-			if !up[n.name] {
-				continue
-			}
-			pins, err := ipfsPins(n.mock)
-			if err != nil {
-				return nil, err
-			}
-			b, _ := json.Marshal(pins)
-			snap += n.name + string(b)
-			for _, pi := range n.r.Cluster.StatusAllLocal(ctx, api.TrackerStatusQueued|api.TrackerStatusPinning|api.TrackerStatusUnpinning) {
-				_ = pi
-				busy = true
-			}
-		}
-		if snap != last || busy {
-			last = snap
-			stableSince = time.Now()
-		} else if time.Since(stableSince) > 400*time.Millisecond {
-			o.Settled = true
-			break
-		}
-		time.Sleep(20 * time.Millisecond)
+	// every daemon answers again, then one recover round on every live peer (the operator's
+	// "recover --all" / the periodic auto-recover), then wait again: this is the point at which the
+	// composition's promise is judged
+	for _, n := range order {
+		n.gw.set(false)
 	}
+	settled, err := waitSettled()
+	if err != nil {
+		return nil, err
+	}
+	if settled {
+		for _, n := range order {
+			if up[n.name] {
+				n.r.Cluster.RecoverAllLocal(ctx)
+			}
+		}
+		settled, err = waitSettled()
+		if err != nil {
+			return nil, err
+		}
+	}
+	o.Settled = settled
 	for _, pn := range sc.Peers {
 		if up[pn] {
 			o.Up = append(o.Up, pn)
